@@ -38,6 +38,25 @@ Example C34_separators_nonvacuous :
   snorm (minify_tagged s) = snorm (decomment s).
 Proof. vm_compute. repeat split; congruence. Qed.
 
+(* Tokens of the sub-grammar (whitespace, comments, strings, the one-byte tokens { } ; , > : and runs of all
+   other bytes): [ntoks0 l] = [tlex (snorm l)] is the normalised token sequence read off the byte-level normal
+   form; css_lex0 s = tlex (decomment s).  For every input not ending inside an unclosed string the output
+   (with the minifier's own string tags) and the comment-stripped input have the same normalised tokens.
+   NOT proved here (evaluated per case, Model.bridge_b, under css_guard): norm (tlex l) = ntoks0 l for the
+   two streams, css_lex0 = css_lex modulo norm, and that re-scanning the output finds the same strings. *)
+Theorem C34_tokens_preserved_partial0 :
+  forall s, ends_in_string s = false -> ntoks0 (minify_tagged s) = ntoks0 (decomment s).
+Proof. exact ntoks0_kept. Qed.
+
+Example C34_tokens0_nonvacuous :
+  (* a; ;b /**/ c /**/{ ;d:"x;"; };  *)
+  let s := [97;59;32;59;98;32;47;42;42;47;32;99;32;47;42;42;47;123;32;59;100;58;34;120;59;34;59;32;125;59;32] in
+  ends_in_string s = false /\ css_guard s = true /\ bridge_b s = true /\
+  ntoks0 (decomment s) = [CRun [97]; CD 59; CRun [98]; CWs; CRun [99]; CD 123; CD 59; CRun [100]; CD 58;
+                          CStr 0 [34;120;59;34] true; CD 125; CD 59] /\
+  norm (css_lex0 (minify_css s)) = norm (css_lex0 s).
+Proof. vm_compute. repeat split; congruence. Qed.
+
 Example C34_witness_comment :
   let s := [97;47;42;42;47;98;123;125] in        (* a/**/b{} *)
   minify_css s = [97;98;123;125] /\ css_guard s = false /\
